@@ -38,7 +38,9 @@ def rule_r1(repo):
     rr = RuleResult('C17.R1', 'metadata expression parsing: (section index, name) or MetadataExprParsingError, folded over expression shapes')
     fi = repo.own_method('MetadataExprParser', 'parse')
     exprs = ['', ' ', '%length', ' %length ', '%1.year', '%0.length', '%5.x', '%x.y', '%1.2.x', 'length', '$length', '%', '%.x', '%-1.x', '% 1.x',
-             '%1 .x', '%12.n_subsets', 'a%b', '.%x', '%1.', '%n_subsets\n', '\t%3.n_subsets', '%1e3.x', '%0x1.y', '%+2.z', '%１.x', '%%', '%a.b.c']
+             '%1 .x', '%12.n_subsets', 'a%b', '.%x', '%1.', '%n_subsets\n', '\t%3.n_subsets', '%1e3.x', '%0x1.y', '%+2.z', '%１.x', '%%', '%a.b.c',
+             # wave 9 (C17-23): the indicator is required whether or not a section index follows
+             '$0.length', '10.length', '#1.section_length', '1.year', ' .x', '.length', 'x1.year', '/1.year', '0.%length']
     it = Interp(repo, 'MetadataExprParser')
     for e in exprs:
         res = it.run_function(fi, lambda: {'self': Obj('MetadataExprParser', {}), 'metadata_expr': e}, self_class='MetadataExprParser')
